@@ -82,7 +82,7 @@ def _corpus(rng):
 
 def cases(seed, tier):
     rng = random.Random(f"C07:{seed}")
-    n = 420 if tier == "quick" else 18000
+    n = 900 if tier == "quick" else 18000
     out = _corpus(random.Random(f"C07c:{seed}"))
     for i in range(n):
         d = gen.scenario(rng, sched="sorted", kinds=("EVSE", "FR"), noise_p=0.2, constraint_free_p=0.08, nmax=7, sess_max=9,
